@@ -19,6 +19,8 @@ LEVEL = "other"
 def run(chk):
     cfgs = ["base", "port", "hi"] if chk.tier == "quick" else ["base", "port", "z", "hi", "port+z"]
     chk.configs = cfgs
+    chk.rule("PIP.on-edge", "point-in-polygon routines (PointInPolygon, PointInOpPolygon): every cross product that decides a toggle is kept in a local that is tested for "
+             "zero with IsOn returned - a point exactly on an edge is never classified by that edge's direction")
     chk.rule("FLOAT.double-only", "no float-typed expression and no single-precision math function in any library function")
     chk.rule("WRAP.container-end", "PointInPolygon: every wrap-around predecessor `prev = E - 1` takes E from polygon.cend() on all reaching definitions "
              "(the local end marker is moved during the cyclic walk)")
@@ -50,6 +52,7 @@ def run(chk):
             from ..extract import AnalysisBroken
             raise AnalysisBroken("TYPE.wide-kept: only %d conversions of 128-bit values found in configuration %s" % (nw, cfg))
         e3.pip_wrap_rule(db, chk, cfg)
+        e3.pip_on_edge_sites(db, chk, cfg)
         e3.no_single_precision(db, chk, cfg)
         from ..engines import e14_poly as e14
         e14.rule_intersect(db, chk, cfg)
